@@ -244,6 +244,218 @@ func c08(r *Report) {
 		r.Decide("flow", "*http2.SettingsFrame: every setting is forwarded", okAll, "each setting is appended unconditionally and the list is written", "some settings are filtered out or the forwarded list is not the collected one", pf.Pos())
 	})
 
+	r.Guard("C08.R2", "a header block is assembled from exactly its own fragments and decoded once, when it is complete", func() {
+		g := G(pf)
+		// the END_HEADERS state a block is dominated by: +1 ended, -1 not ended, 0 unknown
+		endedAt := func(b *ssa.BasicBlock) int {
+			st := 0
+			for _, ce := range ctrlEdges(b) {
+				cond := ce.If.Cond
+				neg := false
+				if u, ok := cond.(*ssa.UnOp); ok && u.Op == token.NOT {
+					cond, neg = u.X, true
+				}
+				c, ok := cond.(*ssa.Call)
+				if !ok || c.Call.StaticCallee() == nil || c.Call.StaticCallee().Name() != "HeadersEnded" {
+					continue
+				}
+				if ce.Taken != neg {
+					st = 1
+				} else {
+					st = -1
+				}
+			}
+			return st
+		}
+		isHB := func(v ssa.Value) bool { return isFieldRef(v, M+"/h2", "relay", "headerBuffer") }
+		fragOf := func(v ssa.Value) string {
+			for name, fv := range cases {
+				if fromFrame(w, v, fv, "call:HeaderBlockFragment", nil) {
+					return name
+				}
+			}
+			return ""
+		}
+		var resets, writes []*ssa.Call
+		for _, c := range plainCalls(pf, "(*bytes.Buffer).Reset") {
+			if isHB(c.Call.Args[0]) {
+				resets = append(resets, c)
+			}
+		}
+		for _, c := range plainCalls(pf, "(*bytes.Buffer).Write") {
+			if isHB(c.Call.Args[0]) {
+				writes = append(writes, c)
+			}
+		}
+		for _, wc := range writes {
+			kind := fragOf(wc.Call.Args[1])
+			switch kind {
+			case "HeadersFrame", "PushPromiseFrame":
+				// opening fragment: only when the block continues, into an emptied buffer, and the
+				// continuation state is set
+				okOpen := endedAt(wc.Block()) == -1
+				okReset := false
+				for _, rc := range resets {
+					if endedAt(rc.Block()) == -1 && g.Before(rc, wc) {
+						okReset = true
+					}
+				}
+				okState := false
+				for _, in := range instrs(pf) {
+					if st, isSt := in.(*ssa.Store); isSt {
+						if fa, isFa := st.Addr.(*ssa.FieldAddr); isFa && fieldObj(fa).Name() == "continuationState" && blockDominates(wc.Block(), st.Block()) || isSt && func() bool {
+							fa, isFa := st.Addr.(*ssa.FieldAddr)
+							return isFa && fieldObj(fa).Name() == "continuationState" && st.Block() == wc.Block()
+						}() {
+							okState = true
+						}
+					}
+				}
+				r.Decide("path", "*http2."+kind+": an opening fragment is buffered only when END_HEADERS is clear", okOpen, "the buffer write is on the !HeadersEnded() edge", "the opening fragment is buffered on the wrong edge of the END_HEADERS test: complete blocks wait for a CONTINUATION that never comes and continued ones are decoded half", wc.Pos())
+				r.Decide("path", "*http2."+kind+": the fragment buffer is emptied before an opening fragment is stored", okReset, "headerBuffer.Reset() dominates the write on the same edge", "the buffer still holds the fragments of the previous continued block: the next continued block is decoded with that prefix and fails (or yields other headers)", wc.Pos())
+				r.Decide("path", "*http2."+kind+": a continued block records its continuation state", okState, "continuationState is stored together with the opening fragment", "the continuation state is not set for a continued block: the closing CONTINUATION completes the wrong kind of block", wc.Pos())
+			case "ContinuationFrame":
+				okAlways := endedAt(wc.Block()) == 0
+				noReset := true
+				for _, rc := range resets {
+					if ta, isTA := cases["ContinuationFrame"].(*ssa.Extract); isTA {
+						if tt, isT := ta.Tuple.(*ssa.TypeAssert); isT && okEdgeDominatesTA(tt, rc.Block()) {
+							noReset = false
+						}
+					}
+				}
+				r.Decide("path", "*http2.ContinuationFrame: every fragment is appended, whatever its END_HEADERS flag", okAlways && noReset, "the buffer write precedes the END_HEADERS test; no Reset in this case", "a CONTINUATION fragment is appended only on one edge of the END_HEADERS test, or the buffer is emptied first: the assembled block misses fragments", wc.Pos())
+			default:
+				r.Fail("flow", "(*M/h2.relay).processFrame: write to the fragment buffer", "a write to headerBuffer that does not come from a frame's HeaderBlockFragment()", nil, wc.Pos())
+			}
+		}
+		if len(writes) < 3 {
+			r.Undecided("(*M/h2.relay).processFrame: fragment buffer writes", fmt.Sprintf("UNRESOLVED: %d writes to headerBuffer found, want 3 (HEADERS, PUSH_PROMISE, CONTINUATION)", len(writes)))
+		}
+		// decoding: only complete blocks; the error leaves, success reaches the processor with the decoded list
+		isSink := func(i ssa.Instruction) bool {
+			c, ok := i.(*ssa.Call)
+			if !ok || !c.Call.IsInvoke() {
+				return false
+			}
+			switch c.Call.Method.Name() {
+			case "Header", "PushPromise", "complete":
+				return true
+			}
+			return false
+		}
+		decs := plainCalls(pf, "(*M/h2.relay).decodeFull")
+		for k, dc := range decs {
+			name := fmt.Sprintf("(*M/h2.relay).processFrame: decodeFull#%d", k+1)
+			src := fragOf(dc.Call.Args[1])
+			fromBuf := anyIn(w.backSlice(dc.Call.Args[1], flowOpt{}), func(v ssa.Value) bool {
+				c, y := v.(*ssa.Call)
+				return y && calleeName(c) == "(*bytes.Buffer).Bytes" && isHB(c.Call.Args[0])
+			})
+			r.Decide("path", name+" decodes a complete block", endedAt(dc.Block()) == 1 && (src != "" || fromBuf), "on the HeadersEnded() edge, from the frame's fragment or the assembled buffer", "a header block is decoded although END_HEADERS is clear (or a complete one is not): HPACK state is advanced with half a block and every later block of the connection decodes wrongly", dc.Pos())
+			tests := errTests(dc)
+			okErr := len(tests) > 0
+			for _, t := range tests {
+				errs, _, okp := returnValuesFrom(t.NonNil, 0)
+				if !okp || len(errs) == 0 {
+					okErr = false
+				}
+				for _, e := range errs {
+					if isNilConst(e) {
+						okErr = false
+					}
+				}
+				if g.PathTo(blockStart(t.NonNil), true, nil, isSink) != nil {
+					okErr = false
+				}
+				if g.PathTo(blockStart(t.Nil), true, isSink, isReturn) != nil {
+					okErr = false
+				}
+			}
+			r.Decide("path", name+": a decoding error ends the relay, success reaches the processor", okErr, "error edge returns a non-nil error without calling the processor; the other edge calls it on every path", "the test of the decoding error is inverted or missing: valid blocks end the connection, or undecodable ones are handed on", dc.Pos())
+			// the processor receives the decoded list
+			used := false
+			for _, in := range instrs(pf) {
+				if !isSink(in) {
+					continue
+				}
+				c := in.(*ssa.Call)
+				for _, a := range c.Call.Args {
+					for _, l := range resolveAll(a) {
+						if ex, isEx := l.(*ssa.Extract); isEx && ex.Tuple == ssa.Value(dc) && ex.Index == 0 {
+							used = true
+						}
+					}
+				}
+			}
+			r.Decide("flow", name+": the decoded field list is what the processor receives", used, "an argument of Header / PushPromise / complete is the call's first result", "the processor is handed something other than the decoded header list (nil, a stale list)", dc.Pos())
+		}
+		if len(decs) < 3 {
+			r.Undecided("(*M/h2.relay).processFrame: decodeFull calls", fmt.Sprintf("UNRESOLVED: %d found, want 3", len(decs)))
+		}
+		// an encoded block is queued exactly when encoding succeeded
+		for _, n := range []string{"relay.header", "relay.pushPromise"} {
+			f := r.Use("h2", n)
+			if f == nil {
+				continue
+			}
+			gf := G(f)
+			isQ := func(i ssa.Instruction) bool { _, y := isCall(i, "(*M/h2.relay).enqueueFrame"); return y }
+			for _, ec := range plainCalls(f, "(*M/h2.relay).encodeFull") {
+				tests := errTests(ec)
+				okQ := len(tests) > 0
+				for _, t := range tests {
+					if gf.PathTo(blockStart(t.Nil), true, isQ, isReturn) != nil {
+						okQ = false
+					}
+					if gf.PathTo(blockStart(t.NonNil), true, nil, isQ) != nil {
+						okQ = false
+					}
+				}
+				r.Decide("path", fnName(f)+": the encoded block is queued when, and only when, encoding succeeded", okQ, "enqueueFrame on every path of the nil edge, on none of the error edge", "the test of the encoding error is inverted or missing: successfully encoded HEADERS / PUSH_PROMISE frames are dropped (the encoder's dynamic table has already been advanced), or a failed block is sent", ec.Pos())
+			}
+		}
+		// encoding starts from an empty output buffer
+		if ef := r.Use("h2", "relay.encodeFull"); ef != nil {
+			ge := G(ef)
+			isReset := func(i ssa.Instruction) bool {
+				c, ok := isCall(i, "(*bytes.Buffer).Reset")
+				return ok && isFieldRef(c.Common().Args[0], M+"/h2", "relay", "reencoded")
+			}
+			isWF := func(i ssa.Instruction) bool {
+				_, ok := isCall(i, "(*golang.org/x/net/http2/hpack.Encoder).WriteField")
+				return ok
+			}
+			p := ge.PathTo([]ssa.Instruction{ge.Entry()}, true, isReset, isWF)
+			nwf := len(calls(ef, "(*golang.org/x/net/http2/hpack.Encoder).WriteField"))
+			r.Decide("path", "(*M/h2.relay).encodeFull: the output buffer is emptied before a block is encoded", p == nil && nwf > 0, "reencoded.Reset() lies on every path to WriteField", "the encoder's output buffer still holds the previous block: every header block after the first is sent with all earlier blocks in front of it", ef.Pos())
+		}
+		// SETTINGS_HEADER_TABLE_SIZE reaches both HPACK ends, and the relay accepts any size a
+		// peer may announce
+		if ut := r.Use("h2", "relay.updateTableSize"); ut != nil {
+			for _, n := range []string{"(*golang.org/x/net/http2/hpack.Decoder).SetMaxDynamicTableSize", "(*golang.org/x/net/http2/hpack.Encoder).SetMaxDynamicTableSize"} {
+				ok := false
+				for _, c := range plainCalls(ut, n) {
+					if len(ut.Params) > 1 && c.Call.Args[1] == ssa.Value(ut.Params[1]) && c.Block() == ut.Blocks[0] {
+						ok = true
+					}
+				}
+				r.Decide("flow", "(*M/h2.relay).updateTableSize applies the setting: "+short(n), ok, "called with the announced value, unconditionally", "the announced header table size does not reach this HPACK end: encoder and peer decoder (or decoder and peer encoder) disagree about the dynamic table and header blocks decode to other fields", ut.Pos())
+			}
+		}
+		if nr := r.Use("h2", "newRelay"); nr != nil {
+			for _, n := range []string{"(*golang.org/x/net/http2/hpack.Decoder).SetAllowedMaxDynamicTableSize", "(*golang.org/x/net/http2/hpack.Encoder).SetMaxDynamicTableSizeLimit"} {
+				ok := false
+				for _, c := range plainCalls(nr, n) {
+					if k, isK := constInt(c.Call.Args[1]); isK && k >= 1<<32-1 {
+						ok = true
+					}
+				}
+				r.Decide("table", "M/h2.newRelay lifts the HPACK table limit: "+short(n), ok, "set to math.MaxUint32", "the relay's HPACK end keeps the 4096-byte default limit: a peer that announced a larger table and uses it makes the relay fail the connection (or encode with a smaller table than announced)", nr.Pos())
+			}
+		}
+	})
+
 	r.Guard("C08.R3", "END_STREAM is never invented: the streamEnded argument of every Header call derives from a StreamEnded() flag or from the caller", func() {
 		endStreamOnLastFragmentRule(r)
 		for _, f := range w.Funcs("h2") {
@@ -360,6 +572,15 @@ func c08(r *Report) {
 						}
 					}
 					r.Decide("flow", fmt.Sprintf("M/h2.%s.%s owns its bytes (%s)", tn, f.Name(), fnName(s.Parent())), why == "", "every stored payload is a fresh allocation filled by copy", "the queued frame keeps a slice of a buffer that is reused ("+why+"): a frame that waits behind flow control is overwritten by the next frame read or encoded, and the peer receives corrupted bytes", s.Pos())
+				}
+			}
+			if send != nil && send.Blocks != nil {
+				sendErrorRule(r, send)
+				switch tn {
+				case "queuedHeaderFrame":
+					continuationSendRule(r, send, "WriteHeaders")
+				case "queuedPushPromiseFrame":
+					continuationSendRule(r, send, "WritePushPromise")
 				}
 			}
 			// the expected writer is used
